@@ -1,7 +1,9 @@
 package pipemon
 
 import (
+	"encoding/json"
 	"fmt"
+	"os"
 	"sort"
 	"strings"
 
@@ -23,6 +25,9 @@ func RunProperty(c *core.Ctx, prop string, plan Plan, crashIsViolation bool, ext
 	}
 	sort.Strings(kinds)
 	for _, k := range kinds {
+		if only := os.Getenv("PIPEMON_ONLY"); only != "" && only != k {
+			continue // debugging aid
+		}
 		n := c.N(plan[k][0], plan[k][1])
 		for i := 0; i < n; i++ {
 			DirectedIndex = i
@@ -31,6 +36,12 @@ func RunProperty(c *core.Ctx, prop string, plan Plan, crashIsViolation bool, ext
 		DirectedIndex = -1
 	}
 	cases = append(cases, extraCases...)
+	if os.Getenv("PIPEMON_DUMP") != "" { // debugging aid
+		for _, cs := range cases {
+			b, _ := json.Marshal(cs)
+			fmt.Println("CASE", string(b))
+		}
+	}
 	if len(cases) > 0 {
 		cases[0].Name = "sample"
 	}
